@@ -163,6 +163,45 @@ def pe_cases():
     )
 
 
+# URLs under structured mutation: semantics-preserving and -breaking escapes anywhere after the scheme (double encoding,
+# escaped delimiters and brackets, escapes inside IPv6 literals), the class in which "valid as written, invalid once
+# normalised" inputs live
+def _mutate_url(url: bytes, ops):
+    u = bytearray(url)
+    base = url.find(b"://") + 3
+    for kind, pos, val in ops:
+        if len(u) <= base:
+            break
+        i = base + pos % (len(u) - base)
+        if kind == 0:
+            u[i : i + 1] = (b"%%%02x" if val % 2 else b"%%%02X") % u[i]
+        elif kind == 1:
+            j = u.find(b"%", i)
+            if j >= 0:
+                u[j : j + 1] = b"%25"
+        elif kind == 2:
+            j = u.find(b"%", i)
+            if j >= 0 and j + 2 < len(u):
+                k = j + 1 + val % 2
+                u[k : k + 1] = b"%%%02X" % u[k]
+        elif kind == 3:
+            u[i:i] = [b"[", b"]", b"%5B", b"%5D", b"%2E", b"%2e", b"%3A", b"@", b":", b"%40", b"%25", b"%"][val % 12]
+        elif kind == 4:
+            del u[i]
+        else:
+            u[i : i + 1] = bytes([val])
+    return bytes(u)
+
+
+def url_mut_cases():
+    from . import c12
+
+    base = st.one_of(S.cached("c12.url_parts", c12.url_parts).map(lambda p: c12.assemble(p)[0]), S.frag_url(), st.sampled_from([b"http://[::1]/a", b"http://[fe80::1%25eth0]:80/", b"ftp://[2001:db8::1]/x", b"http://[::ffff:1.2.3.4]/"]))
+    ops = st.lists(st.tuples(st.integers(0, 5), st.integers(0, 200), st.integers(0, 255)), min_size=1, max_size=4)
+    ctx = st.sampled_from([(b"", b""), (b"see ", b" now"), (b"'", b"'"), (b"(", b")"), (b"\x07", b""), (b"x\n", b"\n")])
+    return st.tuples(base, ops, ctx, depth_limits()).map(lambda t: {"data": t[2][0] + _mutate_url(t[0], t[1]) + t[2][1], "depth": t[3]})
+
+
 # shell command texts: every prefix is handed to the hand-written parsers directly
 SHELL_PIECES = S.CMD_PIECES + [b"powershell", b"pwsh", b" -e ", b"/e", b" -enc ", b"-encodedcommand ", b"AAAA", b"ZQBjAGgAbwAgAGIAZQBlAA==", b"=", b";", b"'(", b"')", b"cmd", b"c^md", b'"cmd"', b"/c ", b"x"]
 
@@ -242,7 +281,8 @@ def edge_inputs():
             for combo in itertools.product(segs, repeat=k):
                 for nm in names[:2] if k == 3 else names:
                     yield p + b"".join(combo) + nm
-    hosts = [b"a.com", b"1.2.3.4", b"[::1]", b"[::1", b"%5B::1%5D", b"%5b::1", b"0x7f.1", b"1.2.3.4%20x", b"[v1.x]", b"[]", b"%", b"a%zz.com", b"999.999.999.999", b"0xffffffffff.com"]
+    hosts = [b"a.com", b"1.2.3.4", b"[::1]", b"[::1", b"%5B::1%5D", b"%5b::1", b"0x7f.1", b"1.2.3.4%20x", b"[v1.x]", b"[]", b"%", b"a%zz.com", b"999.999.999.999", b"0xffffffffff.com",
+             b"[::1%2E]", b"[::1%25eth0]", b"[%3A%3A1]", b"[::%31]", b"%5%42::1", b"%%35Bcdn.com", b"[::ffff:1.2.3.4]", b"[::1%2e%2E]"]
     for scheme in (b"http", b"FTP", b"https"):
         for ui in S.URL_USERINFO:
             for h in hosts:
@@ -371,6 +411,7 @@ def units(tier):
     return [
         Unit("soup", "hyp", check=check_scan, strategy=soup_cases, budget=30000 if q else 400000),
         Unit("tokens", "hyp", check=check_scan, strategy=token_cases, budget=30000 if q else 400000),
+        Unit("url_mut", "hyp", check=check_scan, strategy=lambda: S.cached("c01.url_mut", url_mut_cases), budget=30000 if q else 500000),
         Unit("pe", "hyp", check=check_scan, strategy=pe_cases, budget=4000 if q else 60000),
         Unit("shell_cuts", "hyp", check=check_shell_cuts, strategy=shell_texts, budget=24000 if q else 400000),
         Unit("analyzers", "hyp", check=check_analyzers, strategy=analyzer_cases, budget=40000 if q else 600000),
